@@ -226,6 +226,9 @@ func runC15(r *hk.Run) {
 	// C. settings and content types
 	w.settingsCells()
 
+	// C1b. every WHATWG label of every encoding as the Content-Type charset
+	w.labelCells()
+
 	// C2. charsets.FindEncoding against x/net's own WHATWG sniffing on many-meta documents
 	w.findCells()
 
